@@ -165,7 +165,7 @@ impl StateMachine<'_> {
                 self.get_next_color(None)
             }
             (Some(key_color), Some(previous_key_color), false) => {
-                if key_color != previous_key_color {
+                if !self.painted_alike(key_color, previous_key_color) {
                     // Consecutive keys differ without a collision
                     key_color.to_owned()
                 } else {
@@ -185,12 +185,23 @@ impl StateMachine<'_> {
     fn get_next_color(&self, other_than_color: Option<&str>) -> String {
         let n_keys = self.blame_key_colors.len();
         let n_colors = self.config.blame_palette.len();
-        let color = self.config.blame_palette[n_keys % n_colors].clone();
-        if Some(color.as_str()) != other_than_color {
-            color
-        } else {
-            self.config.blame_palette[(n_keys + 1) % n_colors].clone()
+        // The next color of the palette which does not look like `other_than_color`.
+        for i in 0..n_colors {
+            let color = &self.config.blame_palette[(n_keys + i) % n_colors];
+            match other_than_color {
+                Some(other) if self.painted_alike(color, other) => continue,
+                _ => return color.clone(),
+            }
         }
+        self.config.blame_palette[n_keys % n_colors].clone()
+    }
+
+    /// Different palette entries may be painted alike when the terminal has 256 colors only.
+    fn painted_alike(&self, color: &str, other: &str) -> bool {
+        color == other
+            || (!self.config.true_color
+                && color::parse_color(color, false, self.config.git_config())
+                    == color::parse_color(other, false, self.config.git_config()))
     }
 }
 
